@@ -1,6 +1,7 @@
 #!/venv/bin/python
 """Apply each seeded change to /repo, run every check (quick), undo; print and store the detection matrix."""
 import json, os, subprocess, sys, glob, time
+from concurrent.futures import ThreadPoolExecutor
 VERIF = os.path.dirname(os.path.dirname(os.path.abspath(__file__)))
 seeds = sorted(glob.glob(os.path.join(VERIF, "seeded", "*", "patch.diff")))
 only = sys.argv[1:] 
@@ -17,10 +18,14 @@ for p in seeds:
     subprocess.run(["git", "-C", "/repo", "apply", p], check=True)
     try:
         hits = {}
-        for i in range(1, 21):
-            pid = f"C{i:02d}"
-            out = subprocess.run(["/venv/bin/python", "-m", "twzsa", "check", pid], cwd=VERIF, capture_output=True, text=True,
-                                 env=dict(os.environ, TWZSA_NOEVIDENCE="1"))
+
+        def one(pid):
+            return pid, subprocess.run(["/venv/bin/python", "-m", "twzsa", "check", pid], cwd=VERIF, capture_output=True, text=True,
+                                       env=dict(os.environ, TWZSA_NOEVIDENCE="1"))
+        # the twenty checks read the same patched /repo: they run side by side, the patch is undone when all have finished
+        with ThreadPoolExecutor(max_workers=14) as ex:
+            outs = list(ex.map(one, [f"C{i:02d}" for i in range(1, 21)]))
+        for pid, out in outs:
             if out.returncode != 0:
                 rules = sorted({l.strip()[3:].split(" @ ")[0] for l in out.stdout.splitlines() if l.strip().startswith("!! ")})
                 if out.returncode == 2:
